@@ -51,6 +51,7 @@ function TH(t) {
   return id ? id : typeof t + ":" + CLS(t);
 }
 function OBJ(tag) { var o = {}; REG(tag, o); return o; }
+function VOM(tag, ret) { var o = {valueOf: function () { L("vom:" + tag); Array.prototype.push.call(R, 99); return ret; }}; REG(tag, o); return o; }
 function VO(tag, ret) { var o = {valueOf: function () { L("vo:" + tag); return ret; }}; REG(tag, o); return o; }
 function TS(tag, ret) { var o = {toString: function () { L("ts:" + tag); return ret; }}; REG(tag, o); return o; }
 function TL(tag, ret) { var o = {toLocaleString: function () { L("tl:" + tag); return ret; }}; REG(tag, o); return o; }
@@ -99,7 +100,7 @@ func walkInput(in *Input, f func(*V)) {
 	}
 }
 
-func isTagged(k string) bool { return k == "o" || k == "vo" || k == "ts" || k == "tl" }
+func isTagged(k string) bool { return k == "o" || k == "vo" || k == "ts" || k == "tl" || k == "vom" }
 
 func usesProto(in *Input) bool {
 	for _, op := range in.Ops {
@@ -159,7 +160,7 @@ func valJS(v V) string {
 		return ox.JSNum(float64(v.N))
 	case "s":
 		return ox.JSStr(v.S)
-	case "o", "vo", "ts", "tl":
+	case "o", "vo", "ts", "tl", "vom":
 		return v.Tag
 	case "arr":
 		return arrJS(v.E)
@@ -250,7 +251,11 @@ func descJS(name string, d *DescSpec) string {
 		parts = append(parts, "value:"+valJS(*d.Value))
 	}
 	if d.Get != nil {
-		parts = append(parts, fmt.Sprintf(`get:function(){L("get:"+%s);return %s;}`, ox.JSStr(name), valJS(*d.Get)))
+		del := ""
+		if d.GetDel != nil {
+			del = fmt.Sprintf("delete R[%d];", *d.GetDel)
+		}
+		parts = append(parts, fmt.Sprintf(`get:function(){L("get:"+%s);%sreturn %s;}`, ox.JSStr(name), del, valJS(*d.Get)))
 	}
 	if d.Set {
 		parts = append(parts, fmt.Sprintf(`set:function(v){L("set:"+%s+"="+D(v,0));}`, ox.JSStr(name)))
@@ -340,6 +345,8 @@ func setupJS(in *Input) string {
 			fmt.Fprintf(&b, "var %s=OBJ(%q);\n", v.Tag, v.Tag)
 		case "vo":
 			fmt.Fprintf(&b, "var %s=VO(%q,%s);\n", v.Tag, v.Tag, valJS(*v.Ret))
+		case "vom":
+			fmt.Fprintf(&b, "var %s=VOM(%q,%s);\n", v.Tag, v.Tag, valJS(*v.Ret))
 		case "ts":
 			fmt.Fprintf(&b, "var %s=TS(%q,%s);\n", v.Tag, v.Tag, valJS(*v.Ret))
 		case "tl":
